@@ -1,7 +1,8 @@
-(** Soundness of the syntactic check model/ShapeChk.v, for EVERY program of the grammar DSL: if the check
+(** Soundness of the abstract interpretation model/ShapeChk.v, for EVERY program of the grammar DSL: if the check
     passes, every tree [parse_with] returns satisfies [AstToCore.ident_shape] (every Identifier node is empty or
     starts with an Id token, and no token has the kind Identifier).  Instantiated on the regenerated grammar by
-    vm_compute ([grammar_ident_shape]). *)
+    vm_compute ([grammar_ident_shape]).  The abstract states are related to the builder by [Rel]; the analysis is
+    independent of how `fn identifier` is written (duplicated or hoisted finish_node, if-statement or if-expression). *)
 From Coq Require Import List NArith Bool PeanoNat Lia.
 From TG.Gen Require Import GenTokens GenGrammar.
 From TG.Model Require Import Chars Lexer Prep Tree ParserPrims GInterp AstToCore ShapeChk.
@@ -149,141 +150,236 @@ Proof.
   cbn [bld with_bld]. apply bshape_start; [discriminate|]. exact S.
 Qed.
 
-(** * Every primitive that does not open an Identifier node preserves the invariant *)
-Lemma exec_prim_shape p pr en s : prim_ok pr = true -> Shape s -> res_inv Shape (exec_prim p pr en s).
+(** * The abstract states and the builder *)
+Definition open_id (b b0 : builder) (kids : list tree) : Prop :=
+  bshape b0 /\ parents b = (S_Identifier, List.length (children b0)) :: parents b0 /\ children b = kids ++ children b0.
+Definition id_empty (b : builder) : Prop := exists b0, open_id b b0 [].
+Definition id_started (b : builder) : Prop :=
+  exists b0 toks txt, open_id b b0 (toks ++ [Tok S_Id txt]) /\ Forall is_tk_tok toks.
+Definition Rel (a : ast) (b : builder) : Prop :=
+  match a with
+  | Bot => False
+  | NoId => bshape b
+  | IdEmpty => id_empty b
+  | IdStarted => id_started b
+  | IdOk => id_empty b \/ id_started b
+  end.
+
+Lemma join_ub a b j : join a b = Some j -> forall x, (Rel a x -> Rel j x) /\ (Rel b x -> Rel j x).
+Proof. destruct a, b; cbn [join]; intros E; inversion E; subst; intros x; cbn [Rel]; tauto. Qed.
+Lemma le_noid_rel a b : le_noid a = true -> Rel a b -> bshape b.
+Proof. destruct a; cbn [le_noid Rel]; try discriminate; tauto. Qed.
+
+Lemma started_tok_ext b b' : id_started b -> tok_ext b b' -> id_started b'.
 Proof.
-  intros OK S. destruct pr; cbn [exec_prim].
-  - (* start_node *) cbn [res_inv]. cbn [prim_ok] in OK. apply negb_true_iff in OK.
-    unfold Shape, p_start_node. cbn [bld with_bld]. apply bshape_start; [|exact S].
-    intros ->. cbn in OK. discriminate.
-  - apply lift_inv. intros s' E. eapply p_finish_node_shape; eauto.
-  - exact S.
-  - destruct (env_get en x) as [[b|cp]|]; cbn [res_inv]; auto. apply lift_inv. intros s' E.
-    unfold p_start_node_at in E. destruct (b_start_node_at (bld s) cp k) as [b|] eqn:B; [|discriminate]. inversion E.
-    apply Shape_with_bld. eapply bshape_start_at; [|exact B|exact S].
-    cbn [prim_ok] in OK. apply negb_true_iff in OK. intros ->. cbn in OK. discriminate.
-  - (* assert *) apply lift_inv. intros s' E. unfold p_assert in E.
-    destruct (p_eat_if s k) as [[[|] s1]|] eqn:EI; try discriminate. inversion E; subst.
-    eapply bshape_tok_ext; [exact S|eapply p_eat_if_ext; exact EI].
-  - (* expect *) apply lift_inv. intros s' E. unfold p_expect in E.
-    destruct (p_eat_if s k) as [[[|] s1]|] eqn:EI; try discriminate.
-    + inversion E; subst. eapply bshape_tok_ext; [exact S|eapply p_eat_if_ext; exact EI].
-    + assert (S1 : Shape s1) by (eapply bshape_tok_ext; [exact S|eapply p_eat_if_ext; exact EI]).
-      destruct (after_err s1); inversion E; subst; exact S1.
-  - (* eat *) apply lift_inv. intros s' E. eapply bshape_tok_ext; [exact S|eapply p_eat_ext; exact E].
-  - (* eat_if *) destruct (p_eat_if s k) as [[b s1]|] eqn:EI; cbn [res_inv]; [|exact I].
-    eapply bshape_tok_ext; [exact S|eapply p_eat_if_ext; exact EI].
-  - (* skip *) apply lift_inv. intros s' E. eapply bshape_tok_ext; [exact S|eapply p_skip_bld; exact E].
-  - (* error *) exact S.
-  - (* error_and_eat *) apply lift_inv. intros s' E. eapply error_eat_shape; [exact E|exact S].
-  - (* error_and_recover *) apply lift_inv. intros s' E. unfold p_error_and_recover in E.
-    destruct (negb (p_at_set (p_error s m) (recover_tokens p)) && negb (p_eof (p_error s m))).
-    + eapply error_eat_shape; [exact E|exact S].
-    + inversion E. exact S.
-  - exact S.
+  intros (b0 & toks & txt & (S0 & P0 & C0) & F) (EP & t' & EC & F'). exists b0, (t' ++ toks), txt. split.
+  - split; [exact S0|]. split; [rewrite EP; exact P0|]. rewrite EC, C0, <- !app_assoc. reflexivity.
+  - apply Forall_app. split; assumption.
 Qed.
 
-(** * The identifier pattern *)
-Lemma is_ident_pat_inv e : is_ident_pat e = true ->
-  exists b1 b2, e = ESeq (EPrim (PStartNode S_Identifier))
-                         (EIf (EPrim (PEatIf T_Id)) (ESeq (EPrim PFinishNode) (EB b1)) (ESeq (EPrim PFinishNode) (EB b2))).
+(** closing the open Identifier node *)
+Lemma finish_open b b0 kids b' :
+  open_id b b0 kids -> (kids = [] \/ exists toks txt, kids = toks ++ [Tok S_Id txt] /\ Forall is_tk_tok toks) ->
+  b_finish_node b = Some b' -> bshape b'.
 Proof.
-  destruct e as [| | | | |a b| | | | |]; try discriminate.
-  destruct a as [| | |pa| | | | | | |]; try discriminate. destruct pa; try discriminate.
-  destruct b as [| | | | | |c x y| | | |]; try discriminate.
-  destruct c as [| | |pc| | | | | | |]; try discriminate. destruct pc; try discriminate.
-  destruct x as [| | | | |x1 x2| | | | |]; try discriminate. destruct x1 as [| | |px| | | | | | |]; try discriminate.
-  destruct px; try discriminate. destruct x2; try discriminate.
-  destruct y as [| | | | |y1 y2| | | | |]; try discriminate. destruct y1 as [| | |py| | | | | | |]; try discriminate.
-  destruct py; try discriminate. destruct y2; try discriminate.
-  cbn [is_ident_pat]. intros H. apply andb_true_iff in H. destruct H as [H1 H2].
-  apply sk_eqb_eq in H1. apply GenTokens.tk_eqb_eq in H2. subst. eauto.
+  intros ((C & P) & EP & EC) K F. unfold b_finish_node in F. rewrite EP in F. inversion F; subst b'. cbn [children parents]. rewrite EC.
+  replace (List.length (kids ++ children b0) - List.length (children b0))%nat with (List.length kids) by (rewrite app_length; lia).
+  rewrite firstn_app, firstn_all, Nat.sub_diag. cbn [firstn]. rewrite app_nil_r.
+  rewrite skipn_app, skipn_all, Nat.sub_diag. cbn [skipn app].
+  split; [|exact P]. constructor; [|exact C]. unfold shaped. rewrite ident_shape_node_eq.
+  replace (sk_eqb S_Identifier S_Identifier) with true by reflexivity.
+  destruct K as [->|(toks & txt & -> & FT)]; [reflexivity|].
+  rewrite rev_app_distr. cbn [rev app]. replace (sk_eqb S_Id S_Id) with true by reflexivity. cbn [andb forallb].
+  change (ident_shape (Tok S_Id txt)) with true. cbn [andb].
+  apply forallb_forall. intros x Hx. apply in_rev in Hx. rewrite Forall_forall in FT. destruct (FT x Hx) as (k & tx & ->). apply tok_shape.
 Qed.
 
-(** the node built by start_node(Identifier); eat_if(Id); finish_node *)
-Lemma ident_node_shape s b s2 s3 :
-  Shape s -> p_eat_if (p_start_node s S_Identifier) T_Id = Some (b, s2) -> p_finish_node s2 = Some s3 -> Shape s3.
+Lemma rel_finish a b b' : a <> NoId -> Rel a b -> b_finish_node b = Some b' -> bshape b'.
 Proof.
-  intros (C & P) EI FN.
-  assert (B0 : parents (bld (p_start_node s S_Identifier)) = (S_Identifier, List.length (children (bld s))) :: parents (bld s)
-               /\ children (bld (p_start_node s S_Identifier)) = children (bld s)) by (split; reflexivity).
-  destruct B0 as [BP BC].
-  unfold p_finish_node in FN. destruct (b_finish_node (bld s2)) as [b3|] eqn:F; [|discriminate]. inversion FN; subst s3.
-  apply Shape_with_bld. unfold b_finish_node in F.
-  unfold p_eat_if in EI. destruct (p_at (p_start_node s S_Identifier) T_Id) eqn:AT.
-  - destruct (p_eat (p_start_node s S_Identifier)) as [s1|] eqn:E; [|discriminate]. inversion EI; subst b s2.
-    destruct (p_eat_bld _ _ E) as (EP & toks & EC & FT). rewrite BP in EP. rewrite BC in EC.
-    assert (K : cur (p_start_node s S_Identifier) = T_Id) by (apply GenTokens.tk_eqb_eq; exact AT).
-    rewrite K in EC. change (sk_of_tk T_Id) with S_Id in EC.
-    rewrite EP in F. inversion F; subst b3. cbn [children parents]. rewrite EC.
-    set (c0 := children (bld s)). set (tk := Tok S_Id (cur_text (p_start_node s S_Identifier))).
-    replace (List.length (toks ++ tk :: c0) - List.length c0)%nat with (List.length (toks ++ [tk])) by (rewrite !app_length; cbn [List.length]; lia).
-    replace (toks ++ tk :: c0) with ((toks ++ [tk]) ++ c0) by (rewrite <- app_assoc; reflexivity).
-    rewrite firstn_app, firstn_all, Nat.sub_diag. cbn [firstn]. rewrite app_nil_r.
-    rewrite skipn_app, skipn_all, Nat.sub_diag. cbn [skipn app].
-    split; [|exact P]. constructor; [|exact C].
-    unfold shaped. rewrite rev_app_distr. cbn [rev app]. rewrite ident_shape_node_eq.
-    replace (sk_eqb S_Identifier S_Identifier) with true by reflexivity. unfold tk at 1.
-    replace (sk_eqb S_Id S_Id) with true by reflexivity. cbn [andb forallb]. change (ident_shape tk) with true. cbn [andb].
-    apply forallb_forall. intros x Hx. apply in_rev in Hx. rewrite Forall_forall in FT.
-    destruct (FT x Hx) as (k & txt & ->). apply tok_shape.
-  - inversion EI; subst b s2. rewrite BP in F. inversion F; subst b3. cbn [children parents]. try rewrite BC.
-    rewrite Nat.sub_diag. cbn [firstn rev skipn]. split; [|exact P]. constructor; [reflexivity|exact C].
+  intros NA R F. destruct a; cbn [Rel] in R; try contradiction.
+  - destruct R as (b0 & O). eapply finish_open; [exact O|left; reflexivity|exact F].
+  - destruct R as (b0 & toks & txt & O & FT). eapply finish_open; [exact O|right; eauto|exact F].
+  - destruct R as [(b0 & O)|(b0 & toks & txt & O & FT)]; [eapply finish_open; [exact O|left; reflexivity|exact F]|eapply finish_open; [exact O|right; eauto|exact F]].
 Qed.
 
-Lemma ident_pat_shape p e : is_ident_pat e = true -> forall n en s, Shape s -> res_inv Shape (gexec n p e en s).
+(** * Results *)
+Definition res_ok (t f : ast) (r : GInterp.res) : Prop :=
+  match r with
+  | RVal (VB true) _ s => Rel t (bld s)
+  | RVal (VB false) _ s => Rel f (bld s)
+  | RVal (VN _) _ s => Rel t (bld s) /\ Rel f (bld s)
+  | RBrk _ s | RRet _ _ s => bshape (bld s)
+  | RPanic | ROOF => True
+  end.
+
+Lemma res_ok_same a v en s : Rel a (bld s) -> res_ok a a (RVal v en s).
+Proof. intros R. destruct v as [[|]|m]; cbn [res_ok]; auto. Qed.
+Lemma res_ok_lift a o en : (forall s, o = Some s -> Rel a (bld s)) -> res_ok a a (lift o en).
+Proof. destruct o; cbn [lift res_ok]; auto. Qed.
+Lemma res_val_join t f j v en s : join t f = Some j -> res_ok t f (RVal v en s) -> Rel j (bld s).
+Proof. intros J R. destruct (join_ub _ _ _ J (bld s)) as (A & B). destruct v as [[|]|m]; cbn [res_ok] in R; [auto|auto|destruct R; auto]. Qed.
+
+Lemma tk_neq_kind s : tk_eqb (cur s) T_Error = tk_eqb (cur s) T_Error. Proof. reflexivity. Qed.
+
+(** eat_if(Id) on an empty open Identifier *)
+Lemma eat_if_id_empty s b s' : id_empty (bld s) -> p_eat_if s T_Id = Some (b, s') ->
+  if b then id_started (bld s') else id_empty (bld s').
 Proof.
-  intros H. destruct (is_ident_pat_inv e H) as (b1 & b2 & ->). intros n en s HS.
-  destruct n as [|n]; [exact I|]. cbn [gexec].
-  destruct n as [|n]; [exact I|]. cbn [gexec exec_prim].
-  destruct n as [|n]; [exact I|]. cbn [gexec exec_prim].
-  destruct (p_eat_if (p_start_node s S_Identifier) T_Id) as [[b s2]|] eqn:EI; [|exact I].
-  assert (G : forall bb, res_inv Shape (gexec (S n) p (ESeq (EPrim PFinishNode) (EB bb)) en s2)).
-  { intros bb. cbn [gexec]. destruct n as [|n]; [exact I|]. cbn [gexec exec_prim].
-    destruct (p_finish_node s2) as [s3|] eqn:FN; cbn [lift]; [|exact I]. cbn [res_inv].
-    eapply ident_node_shape; eauto. }
-  destruct b; apply G.
+  intros (b0 & (S0 & P0 & C0)) E. unfold p_eat_if in E. destruct (p_at s T_Id) eqn:AT.
+  - destruct (p_eat s) as [s1|] eqn:EE; [|discriminate]. inversion E; subst b s'.
+    destruct (p_eat_bld _ _ EE) as (EP & toks & EC & FT).
+    assert (K : cur s = T_Id) by (apply GenTokens.tk_eqb_eq; exact AT). rewrite K in EC. change (sk_of_tk T_Id) with S_Id in EC.
+    exists b0, toks, (cur_text s). split; [|exact FT]. split; [exact S0|]. split; [rewrite EP; exact P0|].
+    rewrite EC, C0. cbn [app]. rewrite <- app_assoc. reflexivity.
+  - inversion E; subst b s'. exists b0. split; [exact S0|split; assumption].
 Qed.
 
-(** * Every program that passes the check preserves the invariant *)
+(** * Soundness of the primitive rules *)
+Lemma an_prim_sound p pr a t f en s : an_prim pr a = Some (t, f) -> Rel a (bld s) -> res_ok t f (exec_prim p pr en s).
+Proof.
+  intros A R. destruct a; [contradiction| | | |].
+  - (* NoId: as before, plus opening an Identifier *)
+    cbn [Rel] in R. destruct pr; cbn [an_prim same] in A; cbn [exec_prim].
+    + inversion A; subst. apply res_ok_same. destruct (sk_eqb k S_Identifier) eqn:K.
+      * apply sk_eqb_eq in K. subst k. cbn [Rel]. exists (bld s). split; [exact R|split; reflexivity].
+      * cbn [Rel]. unfold p_start_node. cbn [bld with_bld]. apply bshape_start; [|exact R]. intros ->. cbn in K. discriminate.
+    + inversion A; subst. apply res_ok_lift. intros s' E. eapply p_finish_node_shape; eauto.
+    + inversion A; subst. apply res_ok_same. exact R.
+    + destruct (sk_eqb k S_Identifier) eqn:K; [discriminate|]. inversion A; subst.
+      destruct (env_get en x) as [[b|cp]|]; cbn [res_ok]; auto. apply res_ok_lift. intros s' E.
+      unfold p_start_node_at in E. destruct (b_start_node_at (bld s) cp k) as [b|] eqn:B; [|discriminate]. inversion E.
+      apply Shape_with_bld. eapply bshape_start_at; [|exact B|exact R]. intros ->. cbn in K. discriminate.
+    + inversion A; subst. apply res_ok_lift. intros s' E. unfold p_assert in E.
+      destruct (p_eat_if s k) as [[[|] s1]|] eqn:EI; try discriminate. inversion E; subst.
+      eapply bshape_tok_ext; [exact R|eapply p_eat_if_ext; exact EI].
+    + inversion A; subst. apply res_ok_lift. intros s' E. unfold p_expect in E.
+      destruct (p_eat_if s k) as [[[|] s1]|] eqn:EI; try discriminate.
+      * inversion E; subst. eapply bshape_tok_ext; [exact R|eapply p_eat_if_ext; exact EI].
+      * assert (S1 : bshape (bld s1)) by (eapply bshape_tok_ext; [exact R|eapply p_eat_if_ext; exact EI]).
+        destruct (after_err s1); inversion E; subst; exact S1.
+    + inversion A; subst. apply res_ok_lift. intros s' E. eapply bshape_tok_ext; [exact R|eapply p_eat_ext; exact E].
+    + inversion A; subst. destruct (p_eat_if s k) as [[b s1]|] eqn:EI; [|exact I].
+      apply res_ok_same. eapply bshape_tok_ext; [exact R|eapply p_eat_if_ext; exact EI].
+    + inversion A; subst. apply res_ok_lift. intros s' E. eapply bshape_tok_ext; [exact R|eapply p_skip_bld; exact E].
+    + inversion A; subst. apply res_ok_same. exact R.
+    + inversion A; subst. apply res_ok_lift. intros s' E. eapply error_eat_shape; [exact E|exact R].
+    + inversion A; subst. apply res_ok_lift. intros s' E. unfold p_error_and_recover in E.
+      destruct (negb (p_at_set (p_error s m) (recover_tokens p)) && negb (p_eof (p_error s m))).
+      * eapply error_eat_shape; [exact E|exact R].
+      * inversion E. exact R.
+    + inversion A; subst. apply res_ok_same. exact R.
+  - (* IdEmpty *)
+    cbn [Rel] in R. destruct pr; cbn [an_prim same] in A; cbn [exec_prim]; try discriminate.
+    + inversion A; subst. apply res_ok_lift. intros s' E. unfold p_finish_node in E.
+      destruct (b_finish_node (bld s)) as [b'|] eqn:F; [|discriminate]. inversion E. apply Shape_with_bld.
+      eapply (rel_finish IdEmpty); [discriminate|exact R|exact F].
+    + inversion A; subst. apply res_ok_same. exact R.
+    + destruct (tk_eqb k T_Id) eqn:K; [|discriminate]. inversion A; subst. apply GenTokens.tk_eqb_eq in K. subst k.
+      apply res_ok_lift. intros s' E. unfold p_assert in E. destruct (p_eat_if s T_Id) as [[[|] s1]|] eqn:EI; try discriminate.
+      inversion E; subst. exact (eat_if_id_empty _ _ _ R EI).
+    + destruct (tk_eqb k T_Id) eqn:K; [|discriminate]. inversion A; subst. apply GenTokens.tk_eqb_eq in K. subst k.
+      destruct (p_eat_if s T_Id) as [[b s1]|] eqn:EI; cbn [res_ok]; [|exact I].
+      pose proof (eat_if_id_empty _ _ _ R EI) as H. destruct b; exact H.
+    + inversion A; subst. apply res_ok_same. exact R.
+    + inversion A; subst. apply res_ok_same. exact R.
+  - (* IdStarted *)
+    cbn [Rel] in R. destruct pr; cbn [an_prim same] in A; cbn [exec_prim]; try discriminate.
+    + inversion A; subst. apply res_ok_lift. intros s' E. unfold p_finish_node in E.
+      destruct (b_finish_node (bld s)) as [b'|] eqn:F; [|discriminate]. inversion E. apply Shape_with_bld.
+      eapply (rel_finish IdStarted); [discriminate|exact R|exact F].
+    + inversion A; subst. apply res_ok_same. exact R.
+    + inversion A; subst. apply res_ok_lift. intros s' E. unfold p_assert in E.
+      destruct (p_eat_if s k) as [[[|] s1]|] eqn:EI; try discriminate. inversion E; subst.
+      eapply started_tok_ext; [exact R|eapply p_eat_if_ext; exact EI].
+    + inversion A; subst. apply res_ok_lift. intros s' E. unfold p_expect in E.
+      destruct (p_eat_if s k) as [[[|] s1]|] eqn:EI; try discriminate.
+      * inversion E; subst. eapply started_tok_ext; [exact R|eapply p_eat_if_ext; exact EI].
+      * assert (S1 : id_started (bld s1)) by (eapply started_tok_ext; [exact R|eapply p_eat_if_ext; exact EI]).
+        destruct (after_err s1); inversion E; subst; exact S1.
+    + inversion A; subst. apply res_ok_lift. intros s' E. eapply started_tok_ext; [exact R|eapply p_eat_ext; exact E].
+    + inversion A; subst. destruct (p_eat_if s k) as [[b s1]|] eqn:EI; [|exact I].
+      apply res_ok_same. eapply started_tok_ext; [exact R|eapply p_eat_if_ext; exact EI].
+    + inversion A; subst. apply res_ok_lift. intros s' E. eapply started_tok_ext; [exact R|eapply p_skip_bld; exact E].
+    + inversion A; subst. apply res_ok_same. exact R.
+    + inversion A; subst. apply res_ok_same. exact R.
+  - (* IdOk *)
+    destruct pr; cbn [an_prim same] in A; cbn [exec_prim]; try discriminate.
+    + inversion A; subst. apply res_ok_lift. intros s' E. unfold p_finish_node in E.
+      destruct (b_finish_node (bld s)) as [b'|] eqn:F; [|discriminate]. inversion E. apply Shape_with_bld.
+      eapply (rel_finish IdOk); [discriminate|exact R|exact F].
+    + inversion A; subst. apply res_ok_same. exact R.
+    + inversion A; subst. apply res_ok_same. exact R.
+    + inversion A; subst. apply res_ok_same. exact R.
+Qed.
+
+(** * Soundness of the analysis, for every program whose function bodies pass the check *)
+Lemma obind_some {A B} (o : option A) (g : A -> option B) r : obind o g = Some r -> exists x, o = Some x /\ g x = Some r.
+Proof. destruct o; cbn [obind]; [eauto|discriminate]. Qed.
+
 Theorem gexec_shape p : shape_chk_prog p = true ->
-  forall n e en s, shape_chk e = true -> Shape s -> res_inv Shape (gexec n p e en s).
+  forall n e a t f en s, an e a = Some (t, f) -> Rel a (bld s) -> res_ok t f (gexec n p e en s).
 Proof.
-  intros PC. induction n as [|n IH]; intros e en s CK S; [exact I|].
-  destruct (is_ident_pat e) eqn:PAT; [apply ident_pat_shape; assumption|].
-  assert (CK' : match e with
-                | EB _ | EVar _ | EBreak | ECall _ _ => true
-                | ENot a | EReturn a | ESet _ a => shape_chk a
-                | EPrim pr => prim_ok pr
-                | ESeq a b => shape_chk a && shape_chk b
-                | EIf c a b => shape_chk c && shape_chk a && shape_chk b
-                | EWhile c b => shape_chk c && shape_chk b
-                end = true).
-  { destruct e; cbn [shape_chk] in CK; rewrite PAT in CK; exact CK. }
-  clear CK PAT.
-  destruct e as [b|x|a|pr|f arg|a b|c a b|c b| |a|x a]; cbn [gexec].
-  - exact S.
-  - destruct (env_get en x); cbn; auto.
-  - pose proof (IH a en s CK' S) as H. destruct (gexec n p a en s) as [[b|m] en1 s1| | | |]; cbn in *; auto.
-  - apply exec_prim_shape; assumption.
-  - destruct (fn_body p f) as [body|] eqn:FB; [|exact I].
+  intros PC. induction n as [|n IH]; intros e a t f en s A R; [exact I|].
+  destruct e as [b|x|x|pr|fn arg|x y|c x y|c b| |x|v x]; cbn [gexec]; cbn [an] in A.
+  - (* EB *) destruct b; inversion A; subst; cbn [res_ok]; exact R.
+  - (* EVar *) inversion A; subst. destruct (env_get en x); [apply res_ok_same; exact R|exact I].
+  - (* ENot *)
+    apply obind_some in A. destruct A as ([xt xf] & Ax & E). inversion E; subst. cbn [fst snd].
+    pose proof (IH x a _ _ en s Ax R) as H. destruct (gexec n p x en s) as [[[|]|m] en1 s1| | | |]; cbn [res_ok negb] in *; auto.
+  - (* EPrim *) eapply an_prim_sound; eauto.
+  - (* ECall *)
+    destruct a; try discriminate; [contradiction|]. inversion A; subst. cbn [Rel] in R.
+    destruct (fn_body p fn) as [body|] eqn:FB; [|exact I].
     assert (CB : shape_chk body = true).
     { unfold shape_chk_prog in PC. rewrite forallb_forall in PC. apply PC. unfold fn_body in FB. eapply nth_error_In. exact FB. }
+    unfold shape_chk in CB. destruct (an body NoId) as [[bt bf]|] eqn:AB; [|discriminate]. apply andb_true_iff in CB. destruct CB as [Lt Lf].
     destruct (match arg with Some (x, _) => match env_get en x with Some v => Some [v] | None => None end | None => Some [] end) as [cen0|]; [|exact I].
-    pose proof (IH body cen0 s CB S) as H.
-    destruct (gexec n p body cen0 s) as [v cen1 s1|cen1 s1|v cen1 s1| |]; cbn in *; auto;
-      destruct arg as [[x [|]]|]; cbn; auto; destruct cen1; cbn; auto.
-  - apply andb_true_iff in CK'. destruct CK' as [Ca Cb].
-    pose proof (IH a en s Ca S) as H. destruct (gexec n p a en s) as [v en1 s1| | | |]; cbn in *; auto.
-  - apply andb_true_iff in CK'. destruct CK' as [Cc Cb]. apply andb_true_iff in Cc. destruct Cc as [Cc Ca].
-    pose proof (IH c en s Cc S) as H. destruct (gexec n p c en s) as [[[|]|m] en1 s1| | | |]; cbn in *; auto.
-  - pose proof CK' as CW. apply andb_true_iff in CK'. destruct CK' as [Cc Cb].
-    pose proof (IH c en s Cc S) as H. destruct (gexec n p c en s) as [[[|]|m] en1 s1| | | |]; cbn in *; auto.
-    pose proof (IH b en1 s1 Cb H) as H2. destruct (gexec n p b en1 s1) as [v en2 s2|en2 s2| | |]; cbn in *; auto.
-    all: try (apply IH; [|exact H2]; cbn [shape_chk]; rewrite CW; apply orb_true_r).
-  - exact S.
-  - pose proof (IH a en s CK' S) as H. destruct (gexec n p a en s) as [v en1 s1| | | |]; cbn in *; auto.
-  - pose proof (IH a en s CK' S) as H. destruct (gexec n p a en s) as [v en1 s1| | | |]; cbn in *; auto.
+    pose proof (IH body NoId bt bf cen0 s AB R) as H.
+    assert (V : forall v cen1 s1, res_ok bt bf (RVal v cen1 s1) -> bshape (bld s1)).
+    { intros v cen1 s1 Hv. destruct v as [[|]|m]; cbn [res_ok] in Hv; [exact (le_noid_rel _ _ Lt Hv)|exact (le_noid_rel _ _ Lf Hv)|exact (le_noid_rel _ _ Lt (proj1 Hv))]. }
+    destruct (gexec n p body cen0 s) as [v cen1 s1|cen1 s1|v cen1 s1| |]; cbn [res_ok] in *; auto.
+    + pose proof (V v cen1 s1 H) as B1. destruct arg as [[x [|]]|]; [destruct (env_get cen1 0); [apply res_ok_same; exact B1|exact I]|apply res_ok_same; exact B1|apply res_ok_same; exact B1].
+    + destruct arg as [[x [|]]|]; [destruct (env_get cen1 0); [apply res_ok_same; exact H|exact I]|apply res_ok_same; exact H|apply res_ok_same; exact H].
+  - (* ESeq *)
+    apply obind_some in A. destruct A as ([xt xf] & Ax & A). apply obind_some in A. destruct A as (a1 & J & Ay). cbn [fst snd] in *.
+    pose proof (IH x a xt xf en s Ax R) as H. destruct (gexec n p x en s) as [v en1 s1| | | |] eqn:G; cbn [res_ok] in *; auto.
+    apply (IH y a1 t f en1 s1 Ay). exact (res_val_join xt xf a1 v en1 s1 J H).
+  - (* EIf *)
+    apply obind_some in A. destruct A as ([ct cf] & Ac & A). apply obind_some in A. destruct A as ([xt xf] & Ax & A).
+    apply obind_some in A. destruct A as ([yt yf] & Ay & A). apply obind_some in A. destruct A as (jt & Jt & A).
+    apply obind_some in A. destruct A as (jf & Jf & A). inversion A; subst. cbn [fst snd] in *.
+    pose proof (IH c a ct cf en s Ac R) as H.
+    assert (UP : forall r, (res_ok xt xf r \/ res_ok yt yf r) -> res_ok t f r).
+    { intros r Hr. destruct r as [[[|]|m] en2 s2| | | |]; cbn [res_ok] in *; try tauto.
+      - destruct (join_ub _ _ _ Jt (bld s2)); tauto.
+      - destruct (join_ub _ _ _ Jf (bld s2)); tauto.
+      - destruct (join_ub _ _ _ Jt (bld s2)), (join_ub _ _ _ Jf (bld s2)); tauto. }
+    destruct (gexec n p c en s) as [[[|]|m] en1 s1| | | |]; cbn [res_ok] in *; auto.
+    + apply UP. left. apply (IH x ct xt xf en1 s1 Ax H).
+    + apply UP. right. apply (IH y cf yt yf en1 s1 Ay H).
+  - (* EWhile *)
+    destruct a; try discriminate; [contradiction|]. cbn [Rel] in R.
+    pose proof A as AW. apply obind_some in A. destruct A as ([ct cf] & Ac & A). apply obind_some in A. destruct A as ([bt bf] & Ab & A).
+    cbn [fst snd] in A. destruct (le_noid ct && le_noid cf && le_noid bt && le_noid bf) eqn:L; [|discriminate]. inversion A; subst.
+    apply andb_true_iff in L. destruct L as [L Lbf]. apply andb_true_iff in L. destruct L as [L Lbt]. apply andb_true_iff in L. destruct L as [Lct Lcf].
+    pose proof (IH c NoId ct cf en s Ac R) as H.
+    destruct (gexec n p c en s) as [[[|]|m] en1 s1| | | |]; cbn [res_ok] in *; auto.
+    + assert (B1 : bshape (bld s1)) by (exact (le_noid_rel _ _ Lct H)).
+      pose proof (IH b NoId bt bf en1 s1 Ab B1) as H2.
+      destruct (gexec n p b en1 s1) as [v en2 s2|en2 s2| | |]; cbn [res_ok] in *; auto.
+      apply (IH (EWhile c b) NoId NoId NoId en2 s2 AW).
+      destruct v as [[|]|m]; cbn [res_ok] in H2; [exact (le_noid_rel _ _ Lbt H2)|exact (le_noid_rel _ _ Lbf H2)|exact (le_noid_rel _ _ Lbt (proj1 H2))].
+    + exact (le_noid_rel _ _ Lcf H).
+  - (* EBreak *) destruct (le_noid a) eqn:L; [|discriminate]. cbn [res_ok]. eapply le_noid_rel; eauto.
+  - (* EReturn *)
+    apply obind_some in A. destruct A as ([xt xf] & Ax & A). cbn [fst snd] in A.
+    destruct (le_noid xt && le_noid xf) eqn:L; [|discriminate]. apply andb_true_iff in L. destruct L as [Lt Lf].
+    pose proof (IH x a xt xf en s Ax R) as H. destruct (gexec n p x en s) as [v en1 s1| | | |]; cbn [res_ok] in *; auto.
+    destruct v as [[|]|m]; cbn [res_ok] in H; [exact (le_noid_rel _ _ Lt H)|exact (le_noid_rel _ _ Lf H)|exact (le_noid_rel _ _ Lt (proj1 H))].
+  - (* ESet *)
+    apply obind_some in A. destruct A as ([xt xf] & Ax & A). apply obind_some in A. destruct A as (j & J & A). inversion A; subst. cbn [fst snd] in *.
+    pose proof (IH x a xt xf en s Ax R) as H. destruct (gexec n p x en s) as [v0 en1 s1| | | |]; cbn [res_ok] in *; auto.
+    exact (res_val_join xt xf _ v0 en1 s1 J H).
 Qed.
 
 (** * The tree of every completed parse *)
@@ -294,14 +390,15 @@ Theorem parse_ident_shape p entry : shape_chk_prog p = true ->
   forall fuel txt t errs st, parse_with fuel p entry txt = ParseOk t errs st -> ident_shape t = true.
 Proof.
   intros PC fuel txt t errs st H. unfold parse_with in H.
-  pose proof (gexec_shape p PC fuel (ECall entry None) [] (p_new txt) eq_refl (p_new_shape txt)) as T.
-  assert (F : forall s, Shape s -> p_finish s = Some (t, errs) -> ident_shape t = true).
+  pose proof (gexec_shape p PC fuel (ECall entry None) NoId NoId NoId [] (p_new txt) eq_refl (p_new_shape txt)) as T.
+  assert (F : forall s, bshape (bld s) -> p_finish s = Some (t, errs) -> ident_shape t = true).
   { intros s (C & _) E. unfold p_finish in E. destruct (b_finish (bld s)) as [t0|] eqn:B; [|discriminate]. inversion E; subst t0.
     unfold b_finish in B. destruct (children (bld s)) as [|[k cs|k tx] [|c2 r]] eqn:EC; try discriminate.
     assert (t = Node k cs) by (destruct (parents (bld s)); inversion B; reflexivity). subst t.
     inversion C. assumption. }
-  destruct (gexec fuel p (ECall entry None) [] (p_new txt)) as [v en s|en s|v en s| |]; try discriminate; cbn [res_inv] in T;
+  destruct (gexec fuel p (ECall entry None) [] (p_new txt)) as [v en s|en s|v en s| |]; try discriminate;
     destruct (p_finish s) as [[t0 es]|] eqn:PF; try discriminate; inversion H; subst; eapply F; eauto.
+  destruct v as [[|]|m]; cbn [res_ok] in T; tauto.
 Qed.
 
 (** * The regenerated grammar *)
